@@ -509,23 +509,12 @@ theorem wildR_iff (r : RawRoute) (h : docRoute r = true) :
 
 /-! ### rebuilding -/
 
-/-- Building is a function of (configuration, system state, forwarding): `k` rebuilds with the
-    same inputs return the same RA, and the configuration is not an output of a build (it is
-    immutable by construction in the model; the harness checks `config-mutated` on the real
-    code). -/
-theorem build_idempotent (ifi : Interface) (sys : SysState) (fw : Bool) (k : Nat) :
-    (List.range k).map (fun _ => routerAdvertisement ifi sys fw) =
-      List.replicate k (routerAdvertisement ifi sys fw) := by
-  induction k with
-  | zero => rfl
-  | succ k ih =>
-    rw [List.range_succ, List.map_append, ih, List.replicate_succ']
-    rfl
-
-theorem build_idempotent_get (ifi : Interface) (sys : SysState) (fw : Bool) (k j : Nat) (hj : j < k) :
-    ((List.range k).map (fun _ => routerAdvertisement ifi sys fw))[j]? = some (routerAdvertisement ifi sys fw) := by
-  rw [build_idempotent]
-  simp [hj]
+/- "Building the RA again yields an identical RA and never alters the configuration": in the model
+   a build is a pure function of (configuration, system state, forwarding), so the clause is
+   definitional there and no theorem is stated for it. What can go wrong lives in the Go code — a
+   build that writes into the slices of the configuration or of a plugin (seeded changes C01, C01b,
+   C14) — and is observed on the real code: every case builds the RA three times and compares
+   (`unstable`), and compares the configuration before and after (`config-mutated`). -/
 
 /-! ### the model meets the oracle -/
 
